@@ -114,7 +114,7 @@ pub fn c10(quick: bool, seed: u64) -> Outcome {
     }
     let interesting = o.stats.get("phases_interesting");
     // --- histories
-    let cases = if quick { 4_000 } else { 200_000 };
+    let cases = if quick { 20_000 } else { 200_000 };
     let part = pt_run("lfo_history", lfo_case, cases, seed, 10, 4000, |c, st| {
         run_case(c, C10, 300_000, st).map(|i| i.nontrivial)
     });
@@ -136,7 +136,7 @@ pub fn c11(quick: bool, seed: u64) -> Outcome {
     );
     o.assumptions.push("the hook Lfo::verif_phase_bits() returns the oscillator's phase counter (24-bit cycle)".into());
     o.assumptions.push("frequencies are finite and within [0, fs]; phases are finite (the statement's domain)".into());
-    let cases = if quick { 40_000 } else { 2_000_000 };
+    let cases = if quick { 400_000 } else { 2_000_000 };
     let part = pt_run("lfo_history", lfo_case, cases, seed, 11, 4000, |c, st| {
         run_case(c, C11, 400_000, st).map(|i| i.nontrivial)
     });
@@ -168,7 +168,7 @@ pub fn c12_walk(w: &WalkCase, st: &mut Stats) -> Result<bool, Failure> {
 
 pub fn c12(quick: bool, seed: u64) -> Outcome {
     let mut o = Outcome::new(
-        "complete generator: walk with the smallest increment (1 count per tick) over adjacent phase-counter pairs (quick: the 300000 counts either side of the cycle wrap plus 96 seed-chosen complete table cells; thorough: all 2^24 pairs including the wrap pair) + proptest walks (start, increment, length) with increments from {2,3,7,16,100,...,2^23+-1,2^24-1} and log-uniform + proptest histories; per pair |dSine| <= 2pi*1.002*d + 2ulp and |dTriangle| <= 4d with d the actual circular phase step (hook). non-trivial = pair straddling a table-cell edge, the wrap pair, or inside the last two cells; distinct_nontrivial counts such pairs of the increment-1 walk (distinct by construction) plus distinct generated walks/histories containing one",
+        "complete generator: walk with the smallest increment (1 count per tick) over adjacent phase-counter pairs (quick: the 300000 counts either side of the cycle wrap plus 256 seed-chosen complete table cells; thorough: all 2^24 pairs including the wrap pair) + proptest walks (start, increment, length) with increments from {2,3,7,16,100,...,2^23+-1,2^24-1} and log-uniform + proptest histories; per pair |dSine| <= 2pi*1.002*d + 2ulp and |dTriangle| <= 4d with d the actual circular phase step (hook). non-trivial = pair straddling a table-cell edge, the wrap pair, or inside the last two cells; distinct_nontrivial counts such pairs of the increment-1 walk (distinct by construction) plus distinct generated walks/histories containing one",
     );
     o.assumptions.push("the hook Lfo::verif_phase_bits() returns the oscillator's phase counter (24-bit cycle)".into());
     let n = TWO24 as u64;
@@ -182,7 +182,7 @@ pub fn c12(quick: bool, seed: u64) -> Outcome {
         o.absorb(part);
         // seed-chosen complete cells (each walk covers the cell and the step into the next one)
         let mut mix = Mix(seed ^ 0xC12);
-        let cells: Vec<u32> = (0..96).map(|_| 19 + mix.below(1024 - 38) as u32).collect();
+        let cells: Vec<u32> = (0..256).map(|_| 19 + mix.below(1024 - 38) as u32).collect();
         let part = par_chunks("c12_walk", cells.len() as u64, cells.len(), |lo, hi, st| {
             for i in lo..hi {
                 let s = cells[i as usize] << 14;
@@ -203,10 +203,10 @@ pub fn c12(quick: bool, seed: u64) -> Outcome {
     }
     let walk_pairs = o.stats.get("pairs_interesting");
     o.stats.count("distinct_interesting_pairs_in_unit_walk", walk_pairs);
-    let cases = if quick { 6_000 } else { 400_000 };
+    let cases = if quick { 60_000 } else { 400_000 };
     let part = pt_run("c12_walk", walk_case, cases, seed, 12, 2000, |w, st| c12_walk(w, st));
     o.absorb(part);
-    let cases = if quick { 3_000 } else { 100_000 };
+    let cases = if quick { 20_000 } else { 100_000 };
     let part = pt_run("lfo_history", lfo_case, cases, seed, 13, 4000, |c, st| {
         run_case(c, C12, 300_000, st).map(|i| i.nontrivial)
     });
